@@ -230,6 +230,11 @@ func Build(seed uint64, flags int) *Result {
 			b.put("word/theme/theme1.xml", `<?xml version="1.0" encoding="UTF-8"?><a:theme xmlns:a="http://schemas.openxmlformats.org/drawingml/2006/main" name="Office"><a:themeElements/></a:theme>`)
 			b.ovr["/word/theme/theme1.xml"] = "application/vnd.openxmlformats-officedocument.theme+xml"
 		}
+		if r.Bool() { // Word 2010+: a second style part with its own (Microsoft) relationship type
+			b.addRel("http://schemas.microsoft.com/office/2007/relationships/stylesWithEffects", "stylesWithEffects.xml", "")
+			b.put("word/stylesWithEffects.xml", `<?xml version="1.0" encoding="UTF-8"?><w:styles xmlns:w="`+nsW+`"><w:style w:type="paragraph" w:styleId="Normal"><w:name w:val="Normal"/></w:style></w:styles>`)
+			b.ovr["/word/stylesWithEffects.xml"] = "application/vnd.ms-word.stylesWithEffects+xml"
+		}
 		b.addRel(nsR+"/fontTable", "fontTable.xml", "")
 		b.put("word/fontTable.xml", `<?xml version="1.0" encoding="UTF-8"?><w:fonts xmlns:w="`+nsW+`"><w:font w:name="Calibri"><w:panose1 w:val="020F0502020204030204"/></w:font></w:fonts>`)
 		b.ovr["/word/fontTable.xml"] = "application/vnd.openxmlformats-officedocument.wordprocessingml.fontTable+xml"
@@ -340,11 +345,13 @@ func Build(seed uint64, flags int) *Result {
 	}
 	sect := ""
 	if flags&FHeaderMedia != 0 {
+		// media referenced only from the header's own relationships, possibly under a name the library would choose itself
+		logo := r.Pick("logo.png", "image1.png", "image0.png", "image2.png")
 		hid := b.addRel(nsR+"/header", "header1.xml", "")
 		fid := b.addRel(nsR+"/footer", "footer1.xml", "")
 		b.put("word/header1.xml", `<?xml version="1.0" encoding="UTF-8"?><w:hdr xmlns:w="`+nsW+`" xmlns:r="`+nsR+`" xmlns:wp="http://schemas.openxmlformats.org/drawingml/2006/wordprocessingDrawing" xmlns:a="http://schemas.openxmlformats.org/drawingml/2006/main" xmlns:pic="http://schemas.openxmlformats.org/drawingml/2006/picture"><w:p><w:r><w:t>foreign header</w:t></w:r><w:r><w:drawing><wp:inline><wp:extent cx="100" cy="100"/><wp:docPr id="9" name="logo"/><a:graphic><a:graphicData uri="http://schemas.openxmlformats.org/drawingml/2006/picture"><pic:pic><pic:nvPicPr><pic:cNvPr id="9" name="logo"/><pic:cNvPicPr/></pic:nvPicPr><pic:blipFill><a:blip r:embed="rId1"/></pic:blipFill><pic:spPr/></pic:pic></a:graphicData></a:graphic></wp:inline></w:drawing></w:r></w:p></w:hdr>`)
-		b.put("word/_rels/header1.xml."+relsExt, relsXML([]rel{{"rId1", nsR + "/image", "media/logo.png", ""}}))
-		b.put("word/media/logo.png", string(pngBytes(7)))
+		b.put("word/_rels/header1.xml."+relsExt, relsXML([]rel{{"rId1", nsR + "/image", "media/"+logo+"", ""}}))
+		b.put("word/media/"+logo+"", string(pngBytes(7)))
 		b.def("png", "image/png")
 		b.put("word/footer1.xml", `<?xml version="1.0" encoding="UTF-8"?><w:ftr xmlns:w="`+nsW+`"><w:p><w:r><w:t>foreign footer</w:t></w:r></w:p></w:ftr>`)
 		b.ovr["/word/header1.xml"] = "application/vnd.openxmlformats-officedocument.wordprocessingml.header+xml"
